@@ -55,7 +55,8 @@ CLAIMED = {
             "the finite tables the ordering is built from: missing values last in both orders; Asc keeps / Desc flips / Equal stays in "
             "the three direction helpers with (a, b) argument order; ties broken by segment then document as (self, other); Asc "
             "selects the minimum and Desc the maximum of multi-valued fields; ScoredTerm.k1/b come from IndexOptions.bm25_k1/b and "
-            "reach bm25() in the right positions. Numerical score values and the order of concrete hit lists are NOT decided", "5/C10"),
+            "reach bm25() in the right positions; the document length written for BM25 is accumulated over all values of a field. "
+            "Numerical score values and the order of concrete hit lists are NOT decided", "5/C10"),
     "C11": ("dominance of rejecting comparisons over success returns in the cursor decoder; hash-input coverage; argument provenance",
             "every successful cursor decode is dominated by generation / plan-hash / version tests that reject on inequality; the plan "
             "hash covers kind, name and (for every kind) order; search passes its own generation, errors on an unseen cursor and emits next_cursor "
@@ -91,18 +92,22 @@ CLAIMED = {
             "open creates a fresh manifest only when Storage::exists says there is none",
             "5/C17"),
     "C19": ("container-aware value flow of hit indices from the window enumeration, provenance of the re-sort range, per-arm operation table of the score modes",
-            "three clauses: every index used to modify or drop a hit is an enumeration of hits.iter().take(window) with window "
+            "four clauses: every index used to modify or drop a hit is an enumeration of hits.iter().take(window) with window "
             "bounded by window_size; the re-sorted prefix is that window minus the dropped hits (never a length taken after a "
             "removal); Total/Sum add, Multiply multiplies, Max/Min take max/min of (original, rescore) and the call passes (mode, "
-            "original score, rescore score). Scores and the order inside the window are runtime results and NOT decided", "5/C19"),
+            "original score, rescore score); per-document tables cached while rescoring are created per segment. Scores and the order "
+            "inside the window are runtime results and NOT decided", "5/C19"),
     "C20": ("type-based non-interference of the profile flag (control-dependence regions with an effect whitelist), read/write discipline of QueryStats",
             "`profile` half: the flag is read only by the search entry functions, branches on it and on the optional stats handle "
             "control only profiling state, counters are write-only outside to_execution_profile; explain: final_score is synchronised "
             "after the last score-mutating call and the per-segment rank limit under explain is the live-document count, independent "
-            "of limit/cursor (explain's non-interference beyond that is not decided)", "5/C20"),
+            "of limit/cursor; whether a score is computed does not depend on explain (violated today: two known findings); the "
+            "compiled score tree is a structure-preserving copy of the planner's tree (explain's non-interference beyond that is not "
+            "decided)", "5/C20"),
     "C21": ("value-flow from regex match offsets through byte arithmetic to str slicing with a char-boundary sanitiser requirement",
             "every arithmetic slice bound on the highlighted text passes an is_char_boundary loop (or boundary helper) before the "
-            "slice; fragments are pushed only on a match, once per iteration, in a loop bounded by number_of_fragments", "5/C21"),
+            "slice; fragments are pushed only on a match, once per iteration, in a loop bounded by number_of_fragments; the window's "
+            "lower bound stays at or before the match start and its upper bound is start + fragment_size (all definitions joined)", "5/C21"),
     "C23": ("who-may-call over the handler call graph (route table extracted from the router), ordering inside the batch add",
             "no HTTP handler can reach the queue-wiping rollback / truncate; /add and /bulk queue through the all-or-nothing "
             "add_documents, whose checks precede the first append and whose failure arm restores queue and log", "5/C23"),
@@ -114,7 +119,7 @@ CLAIMED = {
     "C25": ("who-may-call from the front ends into the core, SearchResult immutability by type, constant-table agreement",
             "front ends reach the core only through the public entry points and never modify a SearchResult; all IndexOptions "
             "constructions agree on k1/b/positions/storage; CLI string tables equal the serde names; request parts built per element "
-            "in a loop carry no state from earlier elements", "5/C25"),
+            "in a loop carry no state from earlier elements; no front-end type stores an IndexReader / SegmentReader", "5/C25"),
     "C26": ("null-check dominance for every raw-pointer parameter; abstract interpretation of write extents against buf_cap (three-point lattice, fixpoint over all definitions)",
             "all clauses: every dereference behind a null check; every write through the output pointer enumerated and its extent "
             "classified < / <= buf_cap from all definitions (min, saturating_sub, +1, guarded -1); NUL position == copied count == "
